@@ -73,9 +73,20 @@ pub fn show_cons(c: &AuthorityConstraints) -> String {
 pub fn show_obl(o: &PolicyObligations) -> String {
     format!("a={};n={};r={}", o.audit as u8, o.approvals_required, show_str(&o.redaction_profile))
 }
+/// the code's one-line `reason`, as the tag the model computes (`Authorization.stage`)
+pub fn stage_of(reason: &str) -> String {
+    let label = |l: &str| if l == "the Space" { "the_Space".to_string() } else { l.to_string() };
+    if reason == "the acting Principal is not active" { "inactive".into() }
+    else if reason == "the MemorySpace is suspended" { "suspended".into() }
+    else if reason == "an explicit policy statement denies this operation" { "explicit_deny".into() }
+    else if let Some(rest) = reason.strip_prefix("nothing grants ") { format!("nothing_grants:{}", label(rest.split_once(" over ").map(|x| x.1).unwrap_or("?"))) }
+    else if let Some((_, rest)) = reason.split_once(" needs ") { format!("needs_approvals:{}", rest.split(' ').next().unwrap_or("?")) }
+    else if let Some((_, rest)) = reason.split_once(" is granted over ") { format!("granted:{}", label(rest)) }
+    else { format!("unknown({})", reason.replace(' ', "_")) }
+}
 pub fn show_authorization(d: &Authorization) -> String {
-    format!("ok {} used={} unr={} cons={} obl={} pol={}@{}", d.decision.as_str(), show_csv(&d.authorities_used), d.unrestricted as u8,
-        show_cons(&d.constraints), show_obl(&d.obligations), show_str(&d.policy_id), d.policy_version)
+    format!("ok {} used={} unr={} cons={} obl={} pol={}@{} why={}", d.decision.as_str(), show_csv(&d.authorities_used), d.unrestricted as u8,
+        show_cons(&d.constraints), show_obl(&d.obligations), show_str(&d.policy_id), d.policy_version, stage_of(&d.reason))
 }
 pub fn auth_of(p: &str, strength: &str, purpose: &str, assurance: &str, chain: &str) -> AuthContext {
     let mut a = AuthContext::principal(p);
